@@ -401,3 +401,6 @@ func (e *Engine) lookupMethodSig(ct *Contract) *methodSig {
 	}
 	return &methodSig{sig: f.Type().(*types.Signature), recv: recv}
 }
+
+// MathAssumed reports whether some signed machine arithmetic was treated as mathematical.
+func (e *Engine) MathAssumed() bool { return e.mathAssumed }
